@@ -15,9 +15,10 @@
   on the state, so "any number of callers" is: a new call may start whenever `K` is idle; caller
   identities are abstracted by symmetry); `C` one invocation of `Client.Close()`, which does NOT take
   the mutex and may start at any time. ENVIRONMENT: the server answers a received request after any
-  delay or never; while `faultFree = false` the fault injector may fail any read of `R`
-  (retryable = io.EOF / closed; fatal = reset, anything else), any write of `W`, any dial; the caller's
-  context may be cancelled at any step; `faultFree` may be switched on at any time (and stays on).
+  delay or never; the fault injector may fail any read of `R` (retryable = io.EOF / closed;
+  fatal = reset, anything else), any write of `W`, any dial, at any time and any number of times; the
+  caller's context may be cancelled at any step. (Fault-freedom "from now on" is the ghost `clean`:
+  set when a call starts, cleared by every later fault, cancellation or `Close()`.)
   A response followed by the server closing, a short write, a partial message followed by EOF are
   covered by these: `Stream.Recv` returns either a complete message or an error (C07
   `recv_truncated`/`recv_exact`), and a failed/short `Write` returns an error to `writeloop`.
@@ -53,14 +54,15 @@ structure Params where
   terminateClosesTx  : Bool      -- true = before d24e630: `terminate` closes the swapped-out tx channel
   errChBuffered      : Bool      -- 4f747d8: `make(chan error, 1)`
   closeRepaired      : Bool      -- 9ada762: client-level `closed` flag, nil-tolerant `Close`
-  dbg : Nat := 0
   recheckAfterDial   : Bool      -- NOT in the code: proposed patch (reconnect re-checks `c.closed` after dialing)
+  cleanNeedsSettled  : Bool      -- not about the code: the ghost `clean` requires a settled connection (see `settled`)
   deriving Repr, DecidableEq, Inhabited
 
 /-- the code as it is now. -/
 def current : Params :=
   { recvCheckTearsDown := true, reuseDeadConn := false, terminateClosesTx := false,
-    errChBuffered := true, closeRepaired := true, recheckAfterDial := false }
+    errChBuffered := true, closeRepaired := true, recheckAfterDial := false,
+    cleanNeedsSettled := true }
 
 /-- the code with the proposed patch. -/
 def patched : Params := { current with recheckAfterDial := true }
@@ -338,10 +340,10 @@ def kActive (s : St) : Bool := !(s.kp == .idle || s.kp == .retOk || s.kp == .ret
 /-! ### environment steps (pieces; `stepEnv` gates and concatenates them) -/
 
 /-- a new call takes the mutex. -/
-def envStart (s : St) : List St :=
+def envStart (p : Params) (s : St) : List St :=
   if s.kp = .idle then
     [{ s with kp := .k0, retry := 3, ntx := 0, kctx := false, born := s.cclosed,
-              clean := !s.cclosed && s.cp == .c0 && settled s }]
+              clean := !s.cclosed && s.cp == .c0 && (settled s || !p.cleanNeedsSettled) }]
   else []
 
 /-- the caller's context is cancelled / times out. -/
@@ -386,8 +388,8 @@ def envDialFail (s : St) : List St :=
 /-- environment: callers, contexts, `Close()`, the server, the fault injector. -/
 def stepEnv (p : Params) (s : St) : List St :=
   let dirty (l : List St) : List St := l.map fun t => { t with clean := false }
-  envStart s ++ (if p.dbg % 2 = 1 then [] else envCancel s) ++ (if p.dbg / 2 % 2 = 1 then [] else envClose p s) ++ envAnswer s ++ envWritten s
-  ++ (if p.dbg / 4 % 2 = 1 then [] else dirty (envReadFault s 1 ++ envReadFault s 2 ++ envWriteFault s 1 ++ envWriteFault s 2 ++ envDialFail s))
+  envStart p s ++ envCancel s ++ envClose p s ++ envAnswer s ++ envWritten s
+  ++ (dirty (envReadFault s 1 ++ envReadFault s 2 ++ envWriteFault s 1 ++ envWriteFault s 2 ++ envDialFail s))
 
 /-- FUSION OF NO-OP STEPS. A `cancel` on an already cancelled context, a swap+close on an already
     swapped and closed connection, and the loop test `!c.closed.Load()` once `closed` is set, change
@@ -433,10 +435,14 @@ def norm (p : Params) (s : St) : St := norm1 p (norm1 p s)
 /-- successors. Exploration stops at the first state in which a connection has been installed although
     `Close()` had already set `c.closed` (`raced`; only possible without `recheckAfterDial`): every run
     either never does that, or has a prefix ending in such a state. -/
-def step (p : Params) (s : St) : List St :=
-  if s.raced then [] else (stepInt p s ++ stepEnv p s).map (norm p)
+def stepAll (p : Params) (s : St) : List St := (stepInt p s ++ stepEnv p s).map (norm p)
+
+def step (p : Params) (s : St) : List St := if s.raced then [] else stepAll p s
 
 def sys (p : Params) : Sys St := { init := init, step := step p }
+
+/-- the system without the cut at `raced` (used for the witness that the race does leak goroutines). -/
+def sysAll (p : Params) : Sys St := { init := init, step := stepAll p }
 
 /-! ### bad states -/
 
